@@ -23,6 +23,34 @@ use crate::{exec::LAST_PANIC, parse, profiles::Profile, Args};
 
 type Ref = BTreeMap<i64, i64>;
 
+thread_local! {
+    /// keys whose pairs carry a 1500-byte value (BTree.tla: BigKeys / BigElem)
+    static BIG: std::cell::RefCell<std::collections::BTreeSet<i64>> = std::cell::RefCell::new(Default::default());
+}
+fn is_big(k: i64) -> bool {
+    BIG.with(|b| b.borrow().contains(&k))
+}
+/// the value of version v under key k
+fn val_of(prof: &Profile, k: i64, v: i64) -> Vec<u8> {
+    if is_big(k) {
+        vec![b'0' + v as u8; 1500]
+    } else {
+        prof.val(v)
+    }
+}
+/// the version a value read under key k carries (-1: not a value this harness wrote there)
+fn vid(prof: &Profile, k: i64, bytes: &[u8]) -> i64 {
+    if is_big(k) {
+        if bytes.len() == 1500 && bytes.iter().all(|b| *b == bytes[0]) {
+            (bytes[0] - b'0') as i64
+        } else {
+            -1
+        }
+    } else {
+        prof.val_id(bytes)
+    }
+}
+
 fn next_ver(v: i64) -> i64 {
     if v == 1 {
         2
@@ -69,7 +97,7 @@ fn read_all(b: &jammdb::Bucket, prof: &Profile, nkeys: i64, rf: &Ref, at: &str, 
     for k in 1..=nkeys {
         let exp = *rf.get(&k).unwrap_or(&0);
         let got = match b.get(prof.key(k)) {
-            Some(Data::KeyValue(kv)) => prof.val_id(kv.value()),
+            Some(Data::KeyValue(kv)) => vid(prof, k, kv.value()),
             Some(Data::Bucket(n)) => bval(b, n.name(), prof, deep, exp),
             None => 0,
         };
@@ -80,7 +108,10 @@ fn read_all(b: &jammdb::Bucket, prof: &Profile, nkeys: i64, rf: &Ref, at: &str, 
     let mut scan: Vec<Value> = Vec::new();
     for d in b.cursor() {
         match d {
-            Data::KeyValue(kv) => scan.push(json!([prof.key_id(kv.key()), prof.val_id(kv.value())])),
+            Data::KeyValue(kv) => {
+                let k = prof.key_id(kv.key());
+                scan.push(json!([k, vid(prof, k, kv.value())]))
+            }
             Data::Bucket(n) => {
                 let k = prof.key_id(n.name());
                 scan.push(json!([k, bval(b, n.name(), prof, deep, *rf.get(&k).unwrap_or(&0))]))
@@ -140,7 +171,7 @@ fn run_tx(db: &DB, prof: &Profile, nkeys: i64, ops: &[(String, i64)], rf: &mut R
             for (i, (kind, k)) in ops.iter().enumerate() {
                 if kind == "put" {
                     let v = next_ver(*rf.get(k).unwrap_or(&0));
-                    b.put(prof.key(*k), prof.val(v)).map_err(|e| format!("put: {}", e))?;
+                    b.put(prof.key(*k), val_of(prof, *k, v)).map_err(|e| format!("put: {}", e))?;
                     rf.insert(*k, v);
                 } else if kind == "mkb" {
                     // a nested bucket; its content carries the version (10: x = value 0, 11: x = value 1)
@@ -247,6 +278,9 @@ pub fn btree_run(a: &Args) -> i32 {
     let nkeys = a.n("nkeys", 16);
     let ps = a.n("pagesize", 1024) as u64;
     let readback = a.n("readback", 1) != 0;
+    BIG.with(|b| {
+        *b.borrow_mut() = a.s("big", "").split(',').filter(|x| !x.is_empty()).map(|x| x.parse().expect("--big")).collect()
+    });
     let prof = Profile::new("bt", nkeys as usize + 1, 3);
     let dir = crate::scratch_dir();
     let tag = format!("{}-{}", a.s("scratch-tag", "bt"), std::process::id());
